@@ -352,6 +352,9 @@ package hashgraph
 //@   ensures[memo]  h.ltCacheOK()
 //@   ensures[miss]  old(G_miss(h.Store)) ==> G_miss(h.Store)
 
+// stop-rule (C03): where the walk down an ancestor chain stops must be a function of the DAG: it stops at a witness.
+// The code stops only if witness(ah) can be computed NOW (it fails while the rounds of the ancestors have not been
+// divided, e.g. when events are inserted in a batch before a consensus pass) - finding F11.
 //@ func (h *Hashgraph) updateAncestorFirstDescendant(event *Event) error
 //@   noread Event.topologicalIndex, Event.roundReceived, Hashgraph.topologicalIndex
 //@   safety on
@@ -366,6 +369,7 @@ package hashgraph
 //@   loop 2 invariant[view] __eq(G_events(h.Store), old(G_events(h.Store))) && __eq(G_last(h.Store), old(G_last(h.Store))) && __eq(G_lastIdx(h.Store), old(G_lastIdx(h.Store))) && (old(G_fault(h.Store)) ==> G_fault(h.Store))
 //@   loop 1 invariant[memo] h.MemoOK()
 //@   loop 2 invariant[memo] h.MemoOK()
+//@   call witness after assert[stop-rule] (__lastret("witness", 1) == nil && __lastretT[bool]("witness", 0)) == WitV(h, ah)
 
 //@ func (h *Hashgraph) InsertEvent(event *Event, setWireInfo bool) error
 //@   safety on
